@@ -111,6 +111,7 @@ fn configs() -> Vec<Cfg> {
         Cfg { name: "mainnet-last-before901", net: NetID::Mainnet, height: 42_698, floor2: false, fee_pool: 1 << 40 },
         Cfg { name: "mainnet-first-after901", net: NetID::Mainnet, height: 42_699, floor2: true, fee_pool: 1 << 40 },
         Cfg { name: "testnet-before500", net: NetID::Testnet, height: 100, floor2: false, fee_pool: 1 << 40 },
+        Cfg { name: "testnet-last-before500", net: NetID::Testnet, height: 498, floor2: false, fee_pool: 1 << 40 },
         Cfg { name: "testnet-after500", net: NetID::Testnet, height: 499, floor2: true, fee_pool: 1 << 40 },
         // an empty / nearly empty fee pool (no subsidy refills it before TIP-909): the proposer's payout is zero, the vote still counts
         Cfg { name: "mainnet-after901-empty-fee-pool", net: NetID::Mainnet, height: 100_000, floor2: true, fee_pool: 0 },
@@ -135,7 +136,8 @@ pub fn run(run: &Run) {
     run.set("multipliers", json!(ms.len()));
     run.set("deltas", json!(deltas.len()));
     run.set("configurations", json!(cfgs.iter().map(|c| c.name).collect::<Vec<_>>()));
-    let use_cfgs: Vec<&Cfg> = if thorough { cfgs.iter().collect() } else { cfgs.iter().filter(|c| ["custom02-after901", "mainnet-before901", "mainnet-first-after901", "mainnet-after901-empty-fee-pool"].contains(&c.name)).collect() };
+    // every configuration in both tiers (the quick tier thins the deltas of large multipliers, not the rule windows)
+    let use_cfgs: Vec<&Cfg> = cfgs.iter().collect();
     for cfg in use_cfgs {
         let items: Vec<(u128, Option<i8>)> = ms
             .iter()
